@@ -1223,7 +1223,7 @@ def c09(ck):
     rng = Rng(ck.seed)
     quick = ck.tier == "quick"
     ck.model("TheoremsSplit.tla", "TheoremsSplit_quick.cfg" if quick else "TheoremsSplit_thorough.cfg")
-    strs = structured_strings(rng, 500 if quick else 12000)
+    strs = structured_strings(rng, 500 if quick else 6000)
     strs += [codec.phrase("es", codec.words_of(bytes(19), 0, 0)), b"impo sort usua cabi venu nobl oliv clim cont barr marc auto prod vaca torn fati"]
     # Two executions per string, so that a deviation of one decoder cannot hide behind the other: (a) automatic
     # first, then every explicit language - each explicit outcome is compared with the automatic one; (b) every
